@@ -280,6 +280,81 @@ void run(Src &src, Case &c)
             c.count("validator_rejects_original");
         }
     }
+
+    // ---- parser reuse (sub-case appended at the END of the choice sequence: a tape that is used up means no sub-case, so
+    // saved tapes keep their meaning). One permissive Parser object parses this document, a second generated document and
+    // this document again: every result must equal what a fresh parser gives (model dump and issue list), and a model that
+    // was already returned must not change when the parser is used again.
+    if (src.exhausted()) {
+        return;
+    }
+    const bool second1x = src.below(3) != 1; // 0 (simplest), 2: another 1.x document with component-level units; 1: a 2.0 document
+    GenOpts g2;
+    g2.v1x = true;
+    g2.resets = false;
+    g2.imports = false;
+    g2.maxComps = 3;
+    g2.maxVars = 3;
+    g2.maxUnits = 3;
+    C14LayoutSrc layout2(src, 6);
+    ModelSpec spec2 = genValidModel(src, g2);
+    std::string text2;
+    if (second1x) {
+        C14Options o2;
+        o2.version = layout2.flip(50) ? 10 : 11;
+        o2.unitsInComponents = true;
+        o2.cmetaId = layout2.flip(50);
+        o2.shuffleChildren = layout2.flip(50);
+        if (o2.version == 10) {
+            for (auto &comp : spec2.comps) {
+                for (auto &v : comp.vars) {
+                    if (!v.initial.empty() && !isNumberText(v.initial)) {
+                        v.initial = "2";
+                    }
+                }
+            }
+        }
+        text2 = writeCellml1x(spec2, o2, layout2).text;
+    } else {
+        XmlOptions x2;
+        x2.version = 20;
+        x2.layout = static_cast<uint32_t>(layout2.below(1000));
+        text2 = writeXml(spec2, x2);
+    }
+    c.cls("reuse-subcase");
+    c.cls(second1x ? "reuse:second-is-1.x" : "reuse:second-is-2.0");
+    if (doc.componentUnits) {
+        c.cls("reuse:first-has-component-level-units");
+    }
+    c.text += "--- parser reuse: second document ---\n" + text2;
+    const std::string issues1 = dumpIssues(parser);
+    auto fresh2 = Parser::create(false);
+    ModelPtr f2 = fresh2->parseModel(text2);
+    VP_CHECK(c, f2 != nullptr, "C14.reuse|harness:second-document-null", dumpIssues(fresh2));
+    const std::string dump2 = dumpModel(f2), issues2 = dumpIssues(fresh2);
+    const char *secondKind = second1x ? "1x" : "20";
+
+    auto shared = Parser::create(false);
+    ModelPtr a = shared->parseModel(doc.text);
+    VP_CHECK(c, a != nullptr && dumpModel(a) == got, "C14.reuse|first-parse:content", firstDiff(got, dumpModel(a)));
+    VP_CHECK(c, dumpIssues(shared) == issues1, "C14.reuse|first-parse:issues", firstDiff(issues1, dumpIssues(shared)));
+    ModelPtr s2 = shared->parseModel(text2);
+    {
+        std::string lg = checkLogger(shared);
+        VP_CHECK(c, lg.empty(), "C15.monitor|Parser(reused)|" + lg.substr(0, lg.find('|')), lg);
+    }
+    VP_CHECK(c, s2 != nullptr && dumpModel(s2) == dump2, std::string("C14.reuse|second-document-") + secondKind + ":content",
+             "A = fresh parser, B = parser that parsed the case's 1.x document before\n"
+                 << firstDiff(dump2, dumpModel(s2)));
+    VP_CHECK(c, dumpIssues(shared) == issues2, std::string("C14.reuse|second-document-") + secondKind + ":issues", firstDiff(issues2, dumpIssues(shared)));
+    VP_CHECK(c, dumpModel(a) == got, "C14.reuse|returned-model-changed:first", "A = first model when it was returned, B = the same object after the parser parsed another document\n"
+                                                                                   << firstDiff(got, dumpModel(a)));
+    ModelPtr a2 = shared->parseModel(doc.text);
+    VP_CHECK(c, a2 != nullptr && dumpModel(a2) == got, "C14.reuse|third-parse:content", "A = fresh parser, B = third parse by the reused parser\n"
+                                                                                             << firstDiff(got, dumpModel(a2)));
+    VP_CHECK(c, dumpIssues(shared) == issues1, "C14.reuse|third-parse:issues", firstDiff(issues1, dumpIssues(shared)));
+    VP_CHECK(c, dumpModel(s2) == dump2, "C14.reuse|returned-model-changed:second", firstDiff(dump2, dumpModel(s2)));
+    VP_CHECK(c, dumpModel(a) == got, "C14.reuse|returned-model-changed:first", firstDiff(got, dumpModel(a)));
 }
 
 } // namespace
@@ -292,7 +367,8 @@ Property property = {
     "(namespace, group/relationship_ref/component_ref, connection/map_components/map_variables in both component orders, public_interface/private_interface in both attribute orders, units declared inside the "
     "component that uses them, cmeta:id, liter/meter, cellml:units bound to the 1.x namespace on math / model / component / the cn itself under several prefixes, explicit default values, RDF / extension "
     "content, permuted attributes and children); the permissively parsed document is compared with the same model built through the API by an order-insensitive dump with canonical MathML; issue levels, "
-    "the version message, strict refusal and (20 % of cases) the validator verdict are checked. Non-trivial: at least two of {encapsulation group, component-level units, both interface attributes on one "
+    "the version message, strict refusal and (20 % of cases) the validator verdict are checked; when the tape is not used up a parser-reuse sub-case follows (one Parser object parses the document, a second "
+    "generated 1.x or 2.0 document and the first again: each result equals a fresh parser's, returned models do not change). Non-trivial: at least two of {encapsulation group, component-level units, both interface attributes on one "
     "variable, math with units, cmeta:id, old spellings}. Distinct = hash of the document text.",
     run,
     nullptr,
